@@ -1,3 +1,4 @@
+import DSV.FactsOK.SrcC05
 import DSV.Generated.Facts
 import DSV.LLO.Types
 /-! C05 — stage constants and the stage tests of `outcome()`, `IsReportable`, `reports()`. -/
